@@ -265,7 +265,8 @@ def merge(c, a, b, since=None):
     if isinstance(a, tuple) and isinstance(b, tuple) and len(a) == len(b):
         return tuple(merge(c, x, y, since) for x, y in zip(a, b))
     try:
-        if a == b and type(a) is type(b):
+        # NB: a symbolic `a == b` is a declared case split here (Bit.__bool__ forks): on the branch where the two are equal either may be returned
+        if type(a) is type(b) and a == b:
             return a
     except Exception:
         pass
@@ -591,7 +592,18 @@ class Choice:
                 if isinstance(fn, _types.FunctionType):
                     me = self
                     return lambda *a, **k: fn(me, *a, **k)
-        vals = [(g, getattr(v, name)) for g, v in self.alts]
+        vals = []
+        for g, v in self.alts:
+            try:
+                vals.append((g, getattr(v, name)))
+            except AttributeError:
+                # this alternative (e.g. None) has no such attribute: Python raises on the paths where it is the value.  An alternative that
+                # cannot be the value under the current path condition is dropped; otherwise the error propagates as it always did
+                if g.__class__ is Bit and explore.CURRENT is not None and not explore.CURRENT.feasible(g):
+                    continue
+                raise
+        if not vals:
+            raise AttributeError(name)
         if all(callable(x) for _, x in vals):
             def dist(*a, **k):
                 return Choice([(g, None) for g, _ in vals])._zipcall([x for _, x in vals], a, k)
